@@ -11,7 +11,7 @@ theorem C13_master_send_bound (region : Nat) (fs : Option SearchFilters) (script
     (faults : List Bool) :
     nSends (Master.query region fs (Net.init script faults)).2.log
       ≤ 1 + nRecvOk (Master.query region fs (Net.init script faults)).2.log :=
-  (cost_query region fs).total 1 (by omega) (by omega) script faults
+  (cost_query region fs).totalLe 1 (by omega) (by omega) script faults
 
 /-- The single-page query sends at most one request, whatever arrives. -/
 theorem C13_master_singular_send_bound (region : Nat) (fs : Option SearchFilters) (script : List ConnScript)
